@@ -33,6 +33,10 @@ Errors(f, v) ==
   \cup (IF IsAtom(f) /\ f[2] \in ReadOnly THEN {"permission_error(modify,flag)"} ELSE {})
 Allowed(f, v) == IF Errors(f, v) = {} THEN {"ok"} ELSE Errors(f, v)
 Apply(st, f, v) == IF Errors(f, v) = {} THEN [st EXCEPT ![f[2]] = v[2]] ELSE st
+\* current_prolog_flag(F, V) for every kind of first argument (8.17.2.3): an unbound F enumerates, a flag gives its value, another atom
+\* is a domain error, anything else a type error
+Get(f) == CASE f = <<"var">> -> "enumerates" [] IsAtom(f) /\ f[2] \in Changeable \cup ReadOnly -> "value"
+            [] IsAtom(f) -> "domain_error(prolog_flag)" [] OTHER -> "type_error(atom)"
 Observe(st) == [flags |-> st, undefined_call |-> (IF st.unknown = "error" THEN "existence_error" ELSE "fails"), string_is |-> st.double_quotes]
 
 CONSTANT LEN
@@ -50,7 +54,7 @@ NextWalk == /\ Len(hist) < LEN
                  Set(f, v)
 Spec == Init /\ [][NextAll]_vars
 WSpec == Init /\ [][NextWalk]_vars
-Emit == Len(hist) = LEN /\ LEN > 0 => PrintT("CASE " \o ToJson([steps |-> hist]))
+Emit == Len(hist) = LEN /\ LEN > 0 => PrintT("CASE " \o ToJson([steps |-> hist, get |-> [i \in 1..4 |-> LET f == <<<<"var">>, <<"atom", "debug">>, <<"atom", "bogus">>, <<"int">>>>[i] IN [f |-> f, outcome |-> Get(f)]]]))
 \* --- U1 ---
 TypeOK == \A f \in Changeable : st[f] \in Values(f)
 FailedUnchanged == [][\A f \in FlagArgs, v \in ValArgs : (Errors(f, v) # {} /\ st' = Apply(st, f, v)) => st' = st]_vars
